@@ -27,12 +27,13 @@ var lexFragments = []string{
 	"$a$b$", "x'4142'", "X'4'", "b'0101'", "B'1'", "{p:UInt8}", "{", "}", "--c\n", "-- c;", "#c\n", "/* c */", "/* /* n */ */", "/*", "−c\n",
 	"‘s’", "“id”", "@@var", "@", "@@", "->", "<=>", "<>", "!=", "||", "::", "<=", ">=", "==", "=", "!", "|", ":", "?", "^",
 	"(", ")", "[", "]", ",", ".", ";", "+", "-", "*", "/", "%", " ", "\n", "\t", "\r\n", "\x00", "\u00a0", "\ufeff", "\u200b", "é", "ſelect", "\xff", "\xc3", "\xe2\x80",
+	"/*/", "/* /*/ x */ */", "/**/", "/***/", "*/", "`a\\`b`", "`a\\`;b`", "\"a\\\"b\"", "\"a\\\";b\"", "'a\\`b'", "'a\r\nb'", "`a\r\nb`", "'a;b'", "`a;b`", "/*;*/", "--;\n", "#;\n", "1٣", "٣", "１２",
 	"'a\\éb'", "'\\п'", "`\\é`", "'\\😀'", "\"\\é\"", "'\\\xff'", "'\\x4é'", "١٢", "0é", "1e", "1e+", "0x", "0b", "0b2", "0o8", "1__2", "1_", "_1", "$1", "a$b", "e", "E5", "1E5", ".e1", ".1e", ".1_a", ".1_é", ".1a", ".1e5", "1.a", "1.e5",
 }
 
 func genLexCmd(in *bufio.Scanner, out *bufio.Writer, args []string) error {
 	fs := flag.NewFlagSet("genlex", flag.ContinueOnError)
-	mode := fs.String("mode", "exhaustive", "exhaustive | random | corpus | big")
+	mode := fs.String("mode", "exhaustive", "exhaustive | random | corpus | big | boundary")
 	maxLen := fs.Int("len", 3, "exhaustive: maximum length")
 	n := fs.Int("n", 1000, "random: number of cases")
 	seed := fs.Uint64("seed", 1, "random seed")
@@ -108,6 +109,21 @@ func genLexCmd(in *bufio.Scanner, out *bufio.Writer, args []string) error {
 			}
 			fmt.Fprintln(out, hx(b))
 			cnt++
+		}
+	case "boundary":
+		// a lexically significant fragment placed so that it straddles a bufio fill boundary (4096, 8192), in every
+		// scanner context: look-ahead (Peek) and multi-byte decoding must not depend on where the buffer ends
+		ctxs := []struct{ open, close string }{{"", ""}, {"/* ", " */"}, {"'", "'"}, {"`", "`"}, {"\"", "\""}, {"-- ", "\n"}, {"# ", "\n"}, {"$$", "$$"}, {"$t$", "$t$"}, {"{", "}"}, {"x'", "'"}}
+		frags := []string{"*/", "/*", "/*/", "''", "\\'", "\\\\", "``", "\\`", "\"\"", "\\\"", "é", "日", "😀", "\r\n", "::", "<=>", "->", "||", "--", "$$", "$t$", "0x1f", "1e5", "1.5", "@@v", "x'41'", "{p:T}", "ab", "\xff\xfe", " \n", "\\x41", "\\n", ";", "−", "‘", "’"}
+		for _, c := range ctxs {
+			for _, f := range frags {
+				for _, at := range []int{4096, 8192} {
+					for k := 0; k <= len(f); k++ {
+						pad := at - len(c.open) - k
+						fmt.Fprintln(out, hx([]byte(c.open+strings.Repeat("a", pad)+f+" b "+c.close+" c;d")))
+					}
+				}
+			}
 		}
 	case "big": // one large input per scanner: unterminated constructs and long runs (size given by -n)
 		size := *n
